@@ -51,7 +51,8 @@ def run(ctx):
   mods = fd.module_const(mi, '_DEGREE_MODIFICATIONS')
   T['_DEGREE_MODIFICATIONS'] = mods
   from sa import pitfalls
-  pitfalls.apply(ctx, 'PITFALL', [fi for q, fi in sorted(mi.all_functions.items()) if '.' not in q], ['falsy-zero'], {
+  pitfalls.apply(ctx, 'PITFALL', [fi for q, fi in sorted(mi.all_functions.items()) if '.' not in q], ['falsy-zero', 'misaligned-index'], {
+      'misaligned-index': 'the root written into the chord symbol is then not the root the chosen kind was found for: the named chord does not contain the supplied pitches',
       'falsy-zero': 'pitch class 0 (C, B#, Dbb) is a root / bass like any other: a written bass of pitch class 0 is dropped, so the name no longer carries the lowest supplied pitch as bass'})
   for q in ('chord_symbol_root', 'chord_symbol_bass'):
     fi_ = ctx.func('chord_symbols_lib:' + q)
@@ -659,6 +660,23 @@ def escapes(ctx, mi, T):
   ok = first is not None and set(s[0] for s in first if s) <= set(T['_STEPS_MIDI']) and set(T['_STEPS_MIDI']) == set(T['_STEPS_ABOVE'])
   ctx.ob('KEYERR/steps', mi, mi.assigns['_STEPS_MIDI'][0], ok, 'every root letter the regex accepts is a key of both step tables' if ok else 'the root regex accepts letters missing from a step table',
          construct='root letters subset of step tables')
+  # the written root is read back as written: the accidentals after the root letter are taken by the root, not left to what follows
+  import re._constants as _C
+  cons_ = 'the root group of the chord-symbol pattern takes every accidental that follows the letter'
+  for gname_, gno_ in (('root', 1),):
+    top_ = list(tree)
+    pos_ = next((k_ for k_, (op_, av_) in enumerate(top_) if op_ is _C.SUBPATTERN and av_[0] == gno_), None)
+    if pos_ is None:
+      why_ = 'cannot classify: group %d of _CHORD_SYMBOL_PATTERN is not a top-level group' % gno_
+      ctx.ob('RX/root-takes-its-accidentals', mi, mi.assigns['_CHORD_SYMBOL_PATTERN'][0], False, why_, construct=cons_, unknown=why_)
+      continue
+    sh_ = rx.shadowed_alternatives(list(top_[pos_][1][3]), top_[pos_ + 1:])
+    ok = not sh_
+    ctx.ob('RX/root-takes-its-accidentals', mi, mi.assigns['_ROOT_PATTERN'][0] if '_ROOT_PATTERN' in mi.assigns else mi.assigns['_CHORD_SYMBOL_PATTERN'][0], ok,
+           'no alternative of the root is shadowed by an earlier one that matches nothing' if ok else
+           'in the %s group an alternative that can match nothing stands before one that begins with %s, and what follows the group can begin with %s as well: Python tries alternatives in '
+           'order and keeps the first that lets the rest match, so in "Bb7" the root is read as B and b7 is left to the rest of the pattern (a flat seventh added to B), not as Bb with '
+           'kind 7' % (gname_, '/'.join(sorted(sh_[0][0])), '/'.join(sorted(sh_[0][0]))), construct=cons_, definite=True)
   ok = set(T['_DEGREE_OFFSETS']) == set(range(1, 8))
   ctx.ob('KEYERR/degree-offsets', mi, mi.assigns['_DEGREE_OFFSETS'][0], ok, 'normalised degrees 1..7 are exactly the keys of _DEGREE_OFFSETS' if ok else '_DEGREE_OFFSETS keys are %s' % sorted(T['_DEGREE_OFFSETS']), construct='_DEGREE_OFFSETS keys = 1..7')
 
